@@ -219,8 +219,10 @@ def pool(env, full):
     out.append((BOOL, m.TRUE()))
     sym("px", INT)
     out.append((INT, m.Int(2)))
+    out.append((INT, m.Int(1)))
     sym("pr", REAL)
     out.append((REAL, m.Real((1, 2))))
+    out.append((REAL, m.Real(1)))
     sym("pu1", ("BV", 1))
     sym("pu2", ("BV", 2))
     out.append((("BV", 2), m.BV(2, 2)))
@@ -253,6 +255,19 @@ def check_app(env, res, name, fn, rule, tup):
         g = fn(m, *nodes)
     except Exception as e:
         if want is ILL:
+            # the same application attempted again must be refused again
+            try:
+                g2 = fn(m, *nodes)
+            except Exception:
+                g2 = None
+            if g2 is not None:
+                res.outcome("ill:ACCEPTED-on-second-attempt")
+                res.violation("ctor", "ctor:%s(%s):accepted-ill-typed-on-retry" % (name, ",".join(sig_sort(s_) for s_ in sorts)),
+                              "%s(%s) over sorts (%s) is refused the first time but the second identical call returns %s"
+                              % (name, ", ".join(termio.short(termio.dump(n)) for n in nodes),
+                                 ", ".join(sig_sort(s_) for s_ in sorts), termio.short(termio.dump(g2))),
+                              {"ctor": name, "args": [termio.dump(n) for n in nodes], "retry": True})
+                return
             res.outcome("ill:raised")
             res.count("nontrivial")
         else:
